@@ -45,6 +45,8 @@ type VerifC18WiredCfg struct {
 	// over the server's real address manager filled with Book.
 	RealAddressSource bool
 	Book              []VerifC18BookEntry
+	// OnBan, when set, is told each address right after the real addrManager.BanAddress returned
+	OnBan func(addr string)
 }
 
 // VerifC18BookEntry is one known peer address.
@@ -136,7 +138,12 @@ func VerifC18NewWired(c VerifC18WiredCfg) (*VerifC18Wired, error) {
 		Dial:           c.Dial,
 		OnConnection:   s.outboundPeerConnected,
 		GetNewAddress:  getAddr,
-		BanAddress:     s.addrManager.BanAddress,
+		BanAddress: func(addr string) {
+			s.addrManager.BanAddress(addr)
+			if c.OnBan != nil {
+				c.OnBan(addr)
+			}
+		},
 		Logger:         &lg,
 	})
 	if err != nil {
